@@ -219,6 +219,11 @@ def targeted():
         ("if-unbraced-else-sees-then", f([If(c, Decl("int", "t", I(1)), Decl("int", "u", V("t")))])),
         ("while-unbraced-use-after", f([While(c, Decl("int", "t", I(5))), ES(A(V("p0"), V("t")))])),
         ("for-unbraced-use-after", f([For(Decl("int", "i", I(0)), B("<", V("i"), I(2)), Pre("++", "i"), Decl("int", "t", I(5))), ES(A(V("p0"), V("t")))])),
+        # parameters written without a name declare nothing (fix ba9e34c): any number of them, between named ones
+        ("unnamed-params-two", f([Decl("int", "x")], args=("p0", None, None))),
+        ("unnamed-params-around", f([Decl("int", "x"), Block([Decl("int", "y")])], args=("p0", None, "q", None))),
+        ("unnamed-params-clash-still-seen", f([Decl("int", "q")], args=("p0", None, "q", None))),
+        ("unnamed-params-named-twice", f([], args=("p0", None, "p0", None))),
         ("nested-shadow", f([Decl("int", "x"), Block([If(c, Block([Decl("int", "x")]))])])),
         # ladders: a branch that is itself an if (else if ...; an unbraced nested if) still sees every enclosing name
         ("else-if-redeclares-local", f([Decl("int", "x", I(1)), If(c, Block([ES(A(V("x"), I(2)))]), If(B(">", V("p0"), I(7)), Block([Decl("int", "x", I(3))]), Block([ES(A(V("x"), I(4)))])))])),
